@@ -8,6 +8,7 @@ function of output `o` with symbol `g` is the term constructor `g(arg,…)`.
     in <label> <default|->        body input (declaration order)
     out <label> <symbol> <column> body output, its function symbol, its column name
     iter <k>… | zip <k>…          looped keys            form df|lists      cache on|off
+    gatecache on|off  clearonfail on|off      cache policy of the library on refused / failed runs
     begin                          make the for-node
     set <k> nd | one <v> | many <v>…
     run <completed body indices>   → res / outputs / children      (runq: without children)
@@ -21,6 +22,8 @@ structure DSt where
   zipOn : List String := []
   asDf : Bool := true
   useCache : Bool := true
+  gateCache : Bool := false
+  clearOnFail : Bool := false
   cur : Cur String String := []
   st : St String String := { children := [], outs := .df none, cached := none }
   begun : Bool := false
@@ -34,6 +37,8 @@ def DSt.spec (d : DSt) : Spec String String :=
     zipOn := d.zipOn
     asDf := d.asDf
     useCache := d.useCache
+    gateCache := d.gateCache
+    clearOnFail := d.clearOnFail
     colmap := fun o => ((d.outs.lookup o).map (·.2)).getD o
     bodyFn := fun o args => (((d.outs.lookup o).map (·.1)).getD "?") ++ "(" ++ ",".intercalate args ++ ")"
     listVal := fun vs => "[" ++ ",".intercalate vs ++ "]" }
@@ -106,6 +111,10 @@ def step (d : DSt) (ws : List String) : DSt × List String :=
   | ["form", "lists"] => if d.begun then (d, ["bad-op"]) else ({ d with asDf := false }, [])
   | ["cache", "on"] => if d.begun then (d, ["bad-op"]) else ({ d with useCache := true }, [])
   | ["cache", "off"] => if d.begun then (d, ["bad-op"]) else ({ d with useCache := false }, [])
+  | ["gatecache", "on"] => if d.begun then (d, ["bad-op"]) else ({ d with gateCache := true }, [])
+  | ["gatecache", "off"] => if d.begun then (d, ["bad-op"]) else ({ d with gateCache := false }, [])
+  | ["clearonfail", "on"] => if d.begun then (d, ["bad-op"]) else ({ d with clearOnFail := true }, [])
+  | ["clearonfail", "off"] => if d.begun then (d, ["bad-op"]) else ({ d with clearOnFail := false }, [])
   | ["begin"] =>
     if d.begun then (d, ["bad-op"]) else
     let sp := d.spec
